@@ -229,3 +229,58 @@ func ZZ_C17_StripedState() {
 	}
 	vAssert(s.Len() == 0, "c17.state.empty_after_drain")
 }
+
+func init() { vRegister("ZZ_C17_StripedGrow", ZZ_C17_StripedGrow) }
+
+// ZZ_C17_StripedGrow: the table starts with two stripes, one populated and one empty (as lazy stripe creation leaves it);
+// `producers` threads add one entry each with symbolic random tokens, so that within the pre-emption bound one producer
+// can be attaching a ring to the empty stripe while contention between the others (two lost CASes on a ring's tail)
+// doubles the table under the busy flag. Afterwards: the busy flag is free, at most maxLen stripes, and every
+// successfully recorded entry is delivered exactly once by a drain of the *current* table (a ring attached to a table
+// that was replaced meanwhile would be lost).
+func ZZ_C17_StripedGrow() {
+	m := zzMgr()
+	s := NewStriped(4, m)
+	st := &striped[int, int]{buffers: make([]atomic.Pointer[ring[int, int]], 2), len: 2}
+	succeeded := map[int]bool{10: true}
+	st.buffers[0].Store(newRing(m, m.Create(10, 10, 0, 0, 1)))
+	s.striped.Store(st)
+	prod := func(k int) func() {
+		return func() {
+			if s.Add(m.Create(k, k, 0, 0, 1)) == Success {
+				vAtomic(func() { succeeded[k] = true })
+			}
+		}
+	}
+	// retry(k): a producer that enters expandOrRetry directly (in-package), as Add does after its first attempt on the
+	// stripe's ring has failed: one more lost CAS there and it doubles the table (two lost CASes through Add would need
+	// a fourth thread and a third pre-emption)
+	retry := func(k int) func() {
+		return func() {
+			t := &token{idx: vU32("tokenidx")}
+			if s.expandOrRetry(m.Create(k, k, 0, 0, 1), t, true) == Success {
+				vAtomic(func() { succeeded[k] = true })
+			}
+		}
+	}
+	if vParam("producers") == 3 {
+		vPar(prod(1), retry(2), prod(3))
+	} else {
+		vPar(prod(1), retry(2), prod(3), prod(4))
+	}
+	vAssert(s.busy.Load() == 0, "c17.grow.busy_released")
+	bs := s.striped.Load()
+	vAssert(bs.len <= s.maxLen && bs.len >= 2, "c17.grow.at_most_maxlen_stripes")
+	delivered := map[int]int{}
+	s.DrainTo(func(x node.Node[int, int]) { delivered[x.Key()]++ })
+	for k, c := range delivered {
+		vAssert(c == 1, "c17.grow.delivered_at_most_once")
+		vAssert(succeeded[k], "c17.grow.delivered_only_if_recorded")
+	}
+	for k := range succeeded {
+		vAssert(delivered[k] == 1, "c17.grow.no_ring_lost_every_success_delivered")
+	}
+	if bs.len > 2 {
+		vReach("c17.grow.table_doubled")
+	}
+}
